@@ -55,7 +55,12 @@ class Divergence:
 
 def match_known(d: Divergence, known: List[dict]) -> Optional[dict]:
     for e in known:
-        if e.get("site") != d.site:
+        if e.get("site_prefix"):
+            if not d.site.startswith(e["site_prefix"]):
+                continue
+        elif e.get("site") != d.site:
+            continue
+        if e.get("why_prefix") and not d.why.startswith(e["why_prefix"]):
             continue
         when = e.get("when")
         if when in (None, "", "always") or when in d.tags:
